@@ -52,6 +52,10 @@ def parse(repo):
             raise Unrecognised(f"{name} not found in {path}")
         if fn.args.vararg or fn.args.kwarg:
             raise Unrecognised(f"{name}: *args / **kwargs in the signature")
+        # a pass hoisted into a single-use local right before its use reads as the expression in place (harness/c01_pynorm.py
+        # inline_single_use): the call sites keep their nesting and therefore their indices
+        from harness import c01_pynorm as PN
+        fn = PN.inline_single_use(fn)
         params = [a.arg for a in fn.args.args + fn.args.kwonlyargs][1:]           # without `model`
         pos_defaults = dict(zip([a.arg for a in fn.args.args][::-1], [ast.unparse(d) for d in fn.args.defaults][::-1]))
         kw_defaults = {a.arg: (ast.unparse(d) if d is not None else None) for a, d in zip(fn.args.kwonlyargs, fn.args.kw_defaults)}
